@@ -271,6 +271,18 @@ func NewKernel(ctx context.Context, log *slog.Logger, cfg KernelConfig) (*Kernel
 		initState.NextRound.Height, initState.NextRound.Round,
 	)
 
+	// The process may have stopped after persisting the votes that complete a round
+	// but before persisting the resulting view shift.
+	// Nothing else will re-evaluate those votes (redelivered copies are not new),
+	// so check now whether the loaded voting view already commits or ends its round.
+	if len(initState.Voting.PrecommitProofs) > 0 {
+		if err := k.checkVotingPrecommitViewShift(ctx, &initState); err != nil {
+			return nil, fmt.Errorf(
+				"cannot initialize mirror kernel: failed to apply stored precommits: %w", err,
+			)
+		}
+	}
+
 	if err := k.updateObservers(ctx, &initState); err != nil {
 		return nil, err
 	}
